@@ -92,6 +92,7 @@ class GenCfg:
     p_unlisted_launch: float = 0.0   # a launch goes through a runtime call that is not in HTA's launch-name list
     big_stream_marker: bool = False  # Context Sync records carry Kineto's unsigned 'no stream' marker 4294967295 instead of -1
     p_nocorr_head: float = 0.0       # a device activity at the head of the trace carries no correlation id at all
+    p_nocorr_launch: float = 0.0     # a launch call whose activity is missing from the file carries no correlation id either
     loner: bool = False              # an extra host thread with ONE childless operator that outlasts everything else
     p_overhang: float = 0.0          # an operator ends 1-2 us BEFORE its last child (timer glitch: not properly nested any more)
     p_nested_annotation: float = 0.0 # a child slot of an operator becomes a user annotation that wraps further operators
@@ -201,6 +202,8 @@ class _Sim:
         keep_kernel = rng.random() >= cfg.p_drop_kernel
         if keep_launch:
             self.host(rt_cat, call, tid, t, dur_call, cbid=211, correlation=corr)
+            if cfg.p_nocorr_launch > 0 and not keep_kernel and rng.random() < cfg.p_nocorr_launch:
+                self.ev[-1]["args"].pop("correlation", None)
         if keep_kernel:
             self.dev(cat, kname, stream, start, kdur, corr, **kargs)
         end_all = start + kdur
